@@ -38,6 +38,10 @@ REQUESTS = {
     "I4": (P1, {"correct_tip_offset": {"nokey": 1}}, True),
     "I5": (PS, {"correct_force_slope": {"strategy": "bogus"}}, True),
     "I6": (PS, {"correct_force_slope": {"region": "bogus"}}, True),
+    # the step itself would run happily without its prerequisite
+    "I7": (["compute_tip_position", "correct_force_slope"], {}, True),
+    "I8": (["compute_tip_position", "correct_split_approach_retract",
+            "correct_force_slope", "correct_tip_offset"], {}, True),
 }
 
 OWNED = ["force", "tip position", "segment", "height (measured)",
